@@ -12,6 +12,8 @@ import RV.Base.Proto
     cq m U g | cqs m U g | qname m U | qstrict m U | curie m U g | n3 m U | expand S | reset m
     parse m P N P N …  | parsexml m P N P N … | ser m S P O
     split strict U                       -> split <ns>l | err ValueError   (split_uri, stateless)
+    ncname S                             -> nc 0|1                          (is_ncname, stateless)
+    catrange lo hi                       -> cats <name>*<count> …           (unicodedata.category over lo ≤ c < hi, run-length encoded)
     serdoc m fb U g U g …                   -> doc <d>n …> (document prefix table), then reset m
 
   Output of every operation:  `<out>|L <p>n sorted>|P <p>n lookups>|N <n>p lookups>`
@@ -102,6 +104,17 @@ def parseOp : List String → Option Op
   | "serdoc" :: m :: fb :: r => do pure (.serdoc (← bool? m) (← bool? fb) (← ugs? r))
   | _ => none
 
+/-- run-length encoding of `category` over `lo, lo+1, …` (`n` code points) -/
+def catRle : Nat → Nat → Option (Nat × Nat) → List (Nat × Nat) → List (Nat × Nat)
+  | 0, _, cur, acc => (match cur with | some r => r :: acc | none => acc).reverse
+  | n + 1, c, cur, acc =>
+    let k := category c
+    match cur with
+    | some (k', m) => if k' = k then catRle n (c + 1) (some (k', m + 1)) acc else catRle n (c + 1) (some (k, 1)) ((k', m) :: acc)
+    | none => catRle n (c + 1) (some (k, 1)) acc
+
+def catName (k : Nat) : String := (Tables.catNames[k]?).getD "??"
+
 def vocab? (ws : List String) : Option (List Str × List Str) :=
   match ws.span (· ≠ "|") with
   | (ps, _ :: ns) => do pure (← ps.mapM str?, ← ns.mapM str?)
@@ -121,6 +134,16 @@ def step (d : D) (ws : List String) : D × String :=
       (d, (match splitUri (if b then Tables.nameStartCats else Tables.splitStartCats) u with
            | some (n, l) => "split " ++ raw n ++ ">" ++ raw l
            | none => "err ValueError") ++ listing d)
+    | _, _ => (d, "bad-op")
+  | ["ncname", u] =>
+    match str? u with
+    | some u => (d, (if isNcname u then "nc 1" else "nc 0") ++ listing d)
+    | none => (d, "bad-op")
+  | ["catrange", lo, hi] =>
+    match lo.toNat?, hi.toNat? with
+    | some lo, some hi =>
+      (d, "cats " ++ " ".intercalate ((catRle (hi - lo) lo none []).map (fun km => catName km.1 ++ "*" ++ toString km.2))
+            ++ listing d)
     | _, _ => (d, "bad-op")
   | _ =>
     match parseOp ws with
